@@ -1,5 +1,5 @@
 (* C04 -- conditional compilation.  Property theorems only; proofs live in PP/EvalFacts.v. *)
-From SV Require Import Eval EvalFacts.
+From SV Require Import Eval EvalFacts SkipCheck SkipFacts.
 
 (* IEEE 1800-2017 22.6 decision rule, for every chain shape (any number of `elsif, with or
    without `else), every define table and every source text: entering an `ifdef / `ifndef puts
@@ -52,3 +52,27 @@ Example C04_D4_refuted :  (* `ifndef __LINE__ .. `elsif U ..: nothing should sur
              first_true (conds ex_src [] true (ex_chain 0 8)) = 2%nat /\
              existsb (tree_eqb (ex_leafnode K_ElsifGroupOfLines 50)) (s_nodes x') = false.
 Proof. eexists. vm_compute. repeat split; reflexivity. Qed.
+
+(* A subtree on the skip list is walked without any effect: when the loop meets, with skip off, a
+   listed node t whose kind has no Leave arm (keywords, names and bodies of a chain) and none of
+   whose proper descendants is listed, the state after Leave t is the state before Enter t --
+   nothing is emitted, no origin recorded, the define table, the line trackers and the skip list
+   are unchanged -- whatever the subtree contains (directives, includes, macro usages, text),
+   for every configuration, flags and depths.  The hypothesis is [SkipCheck.erasable], evaluated by
+   the model on every listed node of every correspondence case. *)
+Theorem C04_skipped_subtree_no_effect : forall c rec s p ignore strip rdepth idepth t x,
+  erasable x t = true ->
+  run_events (step c rec s p ignore strip rdepth idepth) (events t) x = ROk x.
+Proof. exact skipped_no_effect. Qed.
+
+(* ... and so is a run of consecutive listed siblings (`elsif NAME body of an unselected branch) *)
+Theorem C04_skipped_siblings_no_effect : forall c rec s p ignore strip rdepth idepth ts x,
+  forallb (erasable x) ts = true ->
+  run_events (step c rec s p ignore strip rdepth idepth) (flat_map events ts) x = ROk x.
+Proof. exact skipped_siblings. Qed.
+
+(* non-vacuity: after entering the chain of C04_example the unselected `elsif body is erasable *)
+Example C04_erasable_example :
+  exists x', cond_enter true ex_src (Node K_IfndefDirective (chain_children (ex_chain 8 1))) (st0 []) = ROk x' /\
+             erasable x' (ex_leafnode K_ElsifGroupOfLines 50) = true.
+Proof. eexists. vm_compute. split; reflexivity. Qed.
